@@ -6,11 +6,11 @@ cd /verif
 for d in seeded/C*/; do
   id=$(basename $d)
   git -C /repo apply $PWD/$d/patch.diff || { echo "$id PATCH-DOES-NOT-APPLY"; continue; }
-  out=$(./check $id ${MODE:-quick} 2>&1); rc=$?
+  prop=${id:0:3}; out=$(timeout 1500 ./check $prop ${MODE:-quick} 2>&1); rc=$?
   git -C /repo checkout -- .
   rules=$(echo "$out" | grep -o "rule=[a-z_0-9]*" | sort | uniq -c | awk '{printf "%s(x%s) ", $2, $1}')
   if [ $rc -eq 1 ]; then echo "$id CAUGHT $rules"; else echo "$id MISSED rc=$rc"; fi
-  rm -f replays/$id-*
+  rm -f replays/$prop-*
 done
 # rebuild against the restored tree so later commands start from a clean build
 (cd sim && cargo build --offline --profile sim >/dev/null 2>&1)
